@@ -160,9 +160,10 @@ CFG = dict(
     theorem_hint="Props/C08.v: C08_encoding_* (rolling families, aggregations, order statistics, maps), C08_output_encoding, "
                  "C08_transparent_* (null insertion)",
     level_text="Proof (Coq): (a) for any two null dictionaries and inputs with pointwise equal option views every null-aware "
-               "model function returns the same result: the add-emit-remove rolling families (moments, ewm, wma, trend "
-               "regressions, cov / corr / regx) by the generic theorem encoding_independent, the window-index families "
-               "(extrema, arg-extrema, rank, z-score, min-max, regx residuals) through a relational lemma on the index driver, the "
+               "model function returns the same result: the add-emit-remove rolling families (moments, ewm, wma, z-score, "
+               "trend regressions, cov / corr / regx) by a generic relational theorem on the driver (every window, both bodies), "
+               "the window-index families (extrema, arg-extrema, rank, min-max, regx residuals) through a relational lemma on "
+               "the index driver, the slice family (vfdiff) likewise, the "
                "aggregations and order statistics because each is a function of the unwrapped valid elements, the maps up to the "
                "encoding of the output elements; stated for every carrier, so they hold bit for bit at binary64; (b) the cast of a "
                "result into f64 / f32 / Option<f64> / Option<i32> maps null to null and non-null to non-null; (c) inserting nulls "
